@@ -245,6 +245,11 @@ NOTES = {
     "C14-i": ("length test rearranged into 253 - suffix.len(): with a default zone of 254 or 255 bytes it underflows (panic in debug, over-long name accepted in release)", "MISSED at first (one short default zone); added default zones of 100..255 wire bytes - now caught"),
     "C16-i": ("per-thread error slot drawn from a 16-bit counter of threads that ever failed", "the quick schedules stopped at 4097 sequential threads: the search that follows a broken obligation found HS,65536; 65537 sequential threads are now part of the quick tier - caught with an input"),
     "C17-i": ("recompute() skips decompression when its packet has the address and length of the buffer the last direct decompression returned", "first run: only the regenerated inventory broke (no-failing-input-found); added parse + recompute (operation PR) after a decompression whose result has exactly that length - now caught with an input (the allocator hands the freed block back)"),
+    "C03-j": ("name() answers from the cached question when the owner is a bare pointer whose LOW byte is 12: pointers to 268, 524, ... read as the question name once a question getter has run", "MISSED at first; a question getter is now placed among the walks of every packet and labels are placed at 256k + 12 (268, 524, 780, 4108, 16140) - now caught"),
+    "C05-j": ("MX data ending in a zero byte copied verbatim: an exchange that ends with a pointer to an offset that is a multiple of 256", "caught at once (labels placed at 256, 512, 768, 4096, 8192 and named from MX data)"),
+    "C13-j": ("TXT length bound made to depend on the owner name: 3571..3825 bytes refused under an owner of 235+ characters", "caught at once (boundary owners x boundary TXT lengths)"),
+    "C14-j": ("C table set_name takes a non-null default-zone pointer with length 0 for a zone: the name gets no root byte and is refused", "MISSED at first (the C driver passed NULL for 'no zone'); the driver can now pass a valid pointer with length 0 and C14 calls set_name through the table with NULL, with an empty buffer and with a zone - now caught"),
+    "C16-j": ("the description of any thread NAMED \"main\" is kept in one process-wide slot", "first run: only the regenerated inventory broke (no-failing-input-found); schedules whose threads all carry the name \"main\" added (operation HM) - now caught with an input"),
     "C17-c": ("compress() output built in a thread-local scratch buffer that is not cleared above 64 KiB of capacity", "first run: only the regenerated inventory obligation broke; added small operations right after 33 .. 65 KB ones - now caught with an input"),
 }
 
